@@ -225,6 +225,8 @@ def check_c16(pid, tier):
 
 
 def check(pid, tier, replay=None):
+    if replay:
+        return vlib.replay_observation(pid, {"C09": "BufferContractTrace", "C15": "CloneContractTrace", "C16": "RetryContractTrace"}[pid], replay)
     if pid == "C16":
         return check_c16(pid, tier)
     if pid == "C09":
